@@ -22,7 +22,7 @@ func newL(opt Options, libs ...string) *LState {
 	}
 	L := NewState(opt)
 	all := map[string]LGFunction{LoadLibName: OpenPackage, BaseLibName: OpenBase, TabLibName: OpenTable, StringLibName: OpenString,
-		MathLibName: OpenMath, CoroutineLibName: OpenCoroutine, DebugLibName: OpenDebug}
+		MathLibName: OpenMath, CoroutineLibName: OpenCoroutine, DebugLibName: OpenDebug, OsLibName: OpenOs}
 	if len(libs) == 0 {
 		libs = []string{LoadLibName, BaseLibName, TabLibName, StringLibName, CoroutineLibName}
 	}
